@@ -44,7 +44,7 @@ where
             minimal_length_minus_flags += 4;
         }
         if flags.has_offset() {
-            minimal_length_minus_flags += 4;
+            minimal_length_minus_flags += 2;
         }
         if reader.len() < minimal_length_minus_flags {
             return Err(DecodeError::IncompleteDataMessageHeader);
